@@ -374,7 +374,8 @@ class GalliaBaseModel(BaseCommand, ABC):
         result = {}
 
         for name, info in cls.model_fields.items():
-            if isinstance(info, ConfigArgFieldInfo):
+            # Fields without a config section are not exposed to the config file
+            if isinstance(info, ConfigArgFieldInfo) and info.config_section is not None:
                 config_attribute = (
                     f"{info.config_section}.{name}" if info.config_section != "" else name
                 )
